@@ -72,13 +72,13 @@ var c14OpNames = [...]string{"Store", "Load", "LoadOrStore", "Replace", "Delete"
 	"Cache.LoadOrStore", "Cache.Load", "Cache.Delete", "Cache.CheckExpirations", "SweepKey", "AdvanceTime"}
 
 type c14In struct {
-	Op     int
-	K      int
-	V      int
-	Until  int64 // absolute fake ns; 0 = never expires
-	Del    bool  // ReplaceWithFunc: callback asks for deletion
-	Now    int64 // sweep: the now handed to CheckExpirations
-	Dt     int64
+	Op    int
+	K     int
+	V     int
+	Until int64 // absolute fake ns; 0 = never expires
+	Del   bool  // ReplaceWithFunc: callback asks for deletion
+	Now   int64 // sweep: the now handed to CheckExpirations
+	Dt    int64
 }
 
 type c14Out struct {
